@@ -683,6 +683,9 @@ def compare(ctx, w, spec, pop_seed, trace, steps):
         if res.get('db_refused'):
             ctx.count('flush:refused-by-the-database:' + str(rerr))
             merr = rerr                       # the database refusing a statement is an input of this model, not a prediction
+        if res.get('inferred') and rerr is not None and merr is None:
+            ctx.count('inferred-call-raised:%s:%s' % (op['k'], rerr))    # which row raised inside navigation / prefetch is not predicted
+            merr = rerr
         if op['k'] == 'get':
             if merr is None and not [y for y in m['yields'] if y is not None]: merr = 'ObjectNotFound'
             if res.get('nrows', 0) > 1 and res.get('queried'): merr = 'MultipleObjectsFoundError' if merr in (None, 'ObjectNotFound') else merr
